@@ -319,6 +319,33 @@ func TestC09_Exhaustive(t *testing.T) {
 	})
 }
 
+// Every character the tokenizer is configured for (U+0001..U+FFFE), inside and alone as a field, raw when the
+// statement lets it be raw and quoted otherwise: no character class is special except separators, quotes, CR and LF.
+func TestC09_ExhaustiveEveryCharacter(t *testing.T) {
+	rec := evid.New("C09", "TestC09_ExhaustiveEveryCharacter", "C09", c09Rule)
+	rec.Exhaustive = true
+	rec.DupFree = true
+	defer finish(t, rec)
+	rec.Bounds = "every character U+0001..U+FFFE (surrogates excluded) as the fields <c>, a<c>b in a 2x2 table x {default configuration, separators ; TAB with quotes ' «} x {raw when possible, always quoted} x line endings LF / CRLF"
+	configs := []c09Case{{Seps: []rune{','}, Quotes: []rune{'"'}}, {Seps: []rune{';', '\t'}, Quotes: []rune{'\'', '«'}}}
+	parallelFor(0xfffe, func(i int) {
+		r := rune(i + 1)
+		if r >= 0xd800 && r <= 0xdfff {
+			return
+		}
+		table := [][]string{{string(r), "a" + string(r) + "b"}, {"z", string(r) + string(r)}}
+		for ci, cfg := range configs {
+			for always := 0; always < 2; always++ {
+				c := c09Case{Seps: cfg.Seps, Quotes: cfg.Quotes, Eol: []string{"\n", "\r\n"}[(ci+always)%2], Table: table}
+				if always == 1 {
+					c.QuoteIt = [][]int{{1, 2}, {2, 1}}
+				}
+				c09RunPooled(rec, c)
+			}
+		}
+	})
+}
+
 func TestC09_Rapid(t *testing.T) {
 	rec := evid.New("C09", "TestC09_Rapid", "C09", c09Rule+"; rapid: 1-3 separators from {, ; TAB | space x § ‖}, 1-2 quotes from {\" ' ` « “}, tables 1-6 x 1-5, fields 0-12 characters over the BMP up to U+FFFE weighted to separators, quotes, CR/LF, empty and non-Latin text")
 	defer finish(t, rec)
@@ -354,7 +381,10 @@ func TestC09_Rapid(t *testing.T) {
 				n := rapid.SampledFrom([]int{0, 0, 1, 1, 2, 3, 5, 8, 12, 17, 40, 300}).Draw(rt, "flen")
 				var sb strings.Builder
 				for k := 0; k < n; k++ {
-					switch rapid.IntRange(0, 7).Draw(rt, "fk") {
+					switch rapid.IntRange(0, 8).Draw(rt, "fk") {
+					case 6:
+						// every Latin-1 character, control characters included, is field text unless configured otherwise
+						sb.WriteRune(rune(rapid.IntRange(1, 0xff).Draw(rt, "flatin1")))
 					case 0:
 						sb.WriteRune(rapid.SampledFrom(seps).Draw(rt, "fsep"))
 					case 1:
